@@ -562,6 +562,86 @@ theorem exec_inv {v : Variant} {s s' : State} {op : Op} (hI : SInv s) (h : exec 
     obtain ⟨_, hs⟩ := h
     subst hs
     exact ⟨hI.chain, hI.bound, hI.nodup, hI.num⟩
+  | migrate now sender =>
+    simp only [exec] at h
+    split at h
+    · cases h; exact hI
+    · simp at h
+  | unknown now sender => simp [exec] at h
+
+/-- what a successful execute message does to the STAGE LIST: only `AddStage` (append one), `RemoveStage`
+(truncate to `take id`, only before `stages[id]` starts) and `UpdateStageConfig` (replace one element) touch it -/
+theorem exec_stages {v : Variant} {s s' : State} {op : Op} (hI : SInv s) (h : exec v s op = .ok s') :
+    match op with
+    | .inst .. => False
+    | .addStage _ _ st _ => s'.stages = s.stages ++ [normStage v st]
+    | .removeStage now _ id => s'.stages = s.stages.take id ∧ ∃ st, s.stages[id]? = some st ∧ now < st.start
+    | .updateStage _ _ u => ∃ st, s'.stages = s.stages.set u.id st
+    | _ => s'.stages = s.stages := by
+  cases op with
+  | inst => simp [exec] at h
+  | addStage now sender st ms =>
+    simp only [exec] at h
+    simp only [↓listBased_bind_ok] at h
+    exact (addStage_spec hI h.2).2.2
+  | removeStage now sender id =>
+    simp only [exec] at h
+    simp only [↓listBased_bind_ok] at h
+    obtain ⟨st, hst, hnow, h1, _⟩ := removeStage_spec h.2
+    exact ⟨h1, st, hst, hnow⟩
+  | updateStage now sender u =>
+    simp only [exec, updateStage] at h
+    simp only [↓ofBool_bind_ok] at h
+    obtain ⟨_, h⟩ := h
+    split at h
+    · simp at h
+    · simp only [↓ofBool_bind_ok, pure_ok] at h
+      obtain ⟨_, hs⟩ := h
+      subst hs
+      exact ⟨_, rfl⟩
+  | addMembers now sender id ms =>
+    simp only [exec, addMembers] at h
+    simp only [↓listBased_bind_ok, ↓ofBool_bind_ok, bind_ok, pure_ok] at h
+    obtain ⟨_, _, _, acc, _, hs⟩ := h
+    subst hs; rfl
+  | removeMembers now sender id as =>
+    simp only [exec, removeMembers] at h
+    simp only [↓listBased_bind_ok, ↓ofBool_bind_ok] at h
+    obtain ⟨_, _, h⟩ := h
+    split at h
+    · simp at h
+    · simp only [↓ofBool_bind_ok, bind_ok, pure_ok] at h
+      obtain ⟨_, acc, _, hs⟩ := h
+      subst hs; rfl
+  | increaseLimit now sender funds limit =>
+    simp only [exec, increaseLimit] at h
+    simp only [↓listBased_bind_ok, ↓ofBool_bind_ok, bind_ok, pure_ok] at h
+    obtain ⟨_, _, _, _, _, hs⟩ := h
+    subst hs; rfl
+  | updateAdmins now sender admins =>
+    simp only [exec, updateAdmins] at h
+    simp only [↓ofBool_bind_ok, pure_ok] at h
+    obtain ⟨_, _, hs⟩ := h
+    subst hs; rfl
+  | freeze now sender =>
+    simp only [exec, freeze] at h
+    simp only [↓ofBool_bind_ok, pure_ok] at h
+    obtain ⟨_, hs⟩ := h
+    subst hs; rfl
+  | migrate now sender =>
+    simp only [exec] at h
+    split at h
+    · cases h; rfl
+    · simp at h
+  | unknown now sender => simp [exec] at h
+
+/-- `may_load(..).is_some()` = `has(..)` -/
+theorem lookup_isSome (ms : List Entry) (k : Nat) (a : Addr) : (lookup ms k a).isSome = hasKey ms k a := by
+  induction ms with
+  | nil => rfl
+  | cons m tl ih =>
+    simp only [lookup, hasKey, List.find?_cons, List.any_cons] at ih ⊢
+    cases h : (m.1 == k && m.2.1 == a) <;> simp [ih]
 
 theorem step_inv {v : Variant} {w w' : World} {op : Op} (hI : WInv w) (h : step v w op = .ok w') : WInv w' := by
   cases op with
